@@ -311,6 +311,11 @@ void Run(void* mp, const VState* in, const u16* words, int nwords, int cycles, V
     for (auto& p : m->interpreter.interrupt_pending)
         p = false;
     m->interpreter.vinterrupt_pending = false;
+    // the vectored line's address/context latch is not part of the register file; a harness that wants a vectored
+    // request (ipv=1) to have a defined target passes it in the trailing pad words: [0] = address low, [1] = 0x8000 |
+    // context<<8 | address high.  Without the marker the latch is the reset one (address 0, no context switch).
+    m->interpreter.vinterrupt_address = (in->pad1[1] & 0x8000) ? (in->pad1[0] | ((u32)(in->pad1[1] & 3) << 16)) : 0;
+    m->interpreter.vinterrupt_context_switch = (in->pad1[1] & 0x8000) ? ((in->pad1[1] >> 8) & 1) : false;
     u32 base = in->pc & 0x3FFFF;
     std::vector<std::pair<u32, u16>> saved;
     for (int i = 0; i < nwords; ++i) {
